@@ -528,6 +528,10 @@ func main() {
 	r.Set("rule", "every statement kind x decoration vector (lead, letter case, separator after the first keyword) x transport x read-only user x (namespace, table) whose decorated text Gaea's parser accepts with the same AST node type as the plain statement; each case runs on a fresh real Session. distinct_nontrivial = distinct cases in which a statement the AST classifies as data/schema modifying was really turned away (ERR response and nothing reached a fake backend); non-modifying kinds and accepted statements are not counted.")
 	r.Assume("the AST node type of Gaea's parser (ParseOneStmt) is the reference for 'could modify data or schema'; decorated texts the parser rejects or classifies differently are outside the universe")
 	r.Assume("fake pools/connections always succeed; a statement 'reaches a backend' when a fake PooledConnect.Execute receives it or a pool Get is issued for it")
+	// self-tests of the harness; when the run has unexplained violations they are the verdict
+	if r.Violations() > 0 {
+		r.Finish()
+	}
 	if r.DistinctN("outcomes") < 3 {
 		ev.Fatalf("vacuous: only %d distinct outcomes", r.DistinctN("outcomes"))
 	}
